@@ -65,6 +65,7 @@ class IOContract(MacroContract):
     ptr_scratch: bool = False  # the library's documented pointer globals (hex.pointers.read_byte .. nth_ptr) may change
     group: str = ''
     weight: int = 1  # scheduling hint: heavier jobs are started first
+    shards: int = 1  # the operand tuples are dealt to this many separately assembled instances (parallelism)
     post_hook: Optional[Callable[['IOHarness', Vals], Optional[str]]] = None  # extra check on the assembled image
 
 
@@ -80,6 +81,7 @@ class IOHarness(Harness):
         super().__init__(c, w, td)
         self.buf_addr = {lab: self._label(lab) for lab in c.buffers}
         self._locals: Optional[Dict[int, int]] = None
+        self._vw: Optional[Dict[int, int]] = None
         self._ptr_lo = self._ptr_hi = self._ptr_mask = 0
         if c.ptr_scratch:
             # stl.ptr_init's documented outputs: read_byte, ret_after_read_byte, to_flip, to_jump, to_flip_var, to_jump_var,
@@ -146,7 +148,6 @@ class IOHarness(Harness):
             for lab, data in c.buf_pre(vals).items():
                 self.poke_buf(lab, data)
         assert set(pv) == set(c.vars), f'{c.name}: operand tuple lacks {set(c.vars) - set(pv)}'
-        snapshot = dict(m.mem)
         for nm, x in pv.items():
             self.poke(nm, x)
         inp = to_bits(c.input_(vals)) if c.input_ else []
@@ -158,7 +159,8 @@ class IOHarness(Harness):
         r['eof'] = r['result'] is not None and r['result'][0] == 'eof'
         if r['eof']:
             # the program is over; the next tuple starts from the image as it was
-            m.mem = snapshot
+            m.mem = r['before']
+        del r['before']
         return r
 
 
@@ -190,10 +192,11 @@ def _run_once_bits(h: IOHarness, pv: Dict[str, int], inp: Bits) -> Dict[str, Any
             break
     got = {nm: h.read(nm) for nm in c.vars}
     ok_halt = res is not None and res[0] == 'looping' and m.ip == h.addr['done']
-    vw = h.var_words()
+    vw = h._vw if h._vw is not None else h.var_words()
+    h._vw = vw
     in_addr_word = (3 * h.w + h.w.bit_length()) // h.w
     changed = []
-    for a in set(before) | set(m.mem):
+    for a in {k for k, _ in (before.items() ^ m.mem.items())}:
         b0, b1 = before.get(a, 0), m.mem.get(a, 0)
         if b0 != b1:
             mask = vw.get(a, 0)
@@ -208,14 +211,14 @@ def _run_once_bits(h: IOHarness, pv: Dict[str, int], inp: Bits) -> Dict[str, Any
             mask |= h.local_mask(a)
             if (b0 ^ b1) & ~mask:
                 changed.append(a)
-    return dict(values=got, exit=visited_exit, halted=ok_halt, result=res, ops=m.n - n0, frame_broken=sorted(changed)[:4], out=list(h.out_bits), input_left=len(h.inp_bits))
+    return dict(before=before, values=got, exit=visited_exit, halted=ok_halt, result=res, ops=m.n - n0, frame_broken=sorted(changed)[:4], out=list(h.out_bits), input_left=len(h.inp_bits))
 
 
 def _jsonable(vals: Vals) -> Dict[str, Any]:
     return {k: (v.hex() if isinstance(v, (bytes, bytearray)) else v) for k, v in vals.items()}
 
 
-def check_io_contract(rep: Report, c: IOContract, seed: int) -> Tuple[int, int]:
+def check_io_contract(rep: Report, c: IOContract, seed: int, shard: int = 0) -> Tuple[int, int]:
     """returns (executions, distinct operand tuples)"""
     rng = random.Random(hash((c.name, c.call, seed)) & 0xFFFFFFFF)
     evals = 0
@@ -228,7 +231,7 @@ def check_io_contract(rep: Report, c: IOContract, seed: int) -> Tuple[int, int]:
                 rep.violation(Violation(f'bounded:{c.name}.harness_assembles', f'{c.call} (w={w}): the harness program does not assemble: {type(e).__name__}: {str(e)[:200]}', dict(call=c.call, w=w), True, key=f'{c.name}:assemble'))
                 return evals, len(distinct)
             assert c.domain is not None, c.name
-            for vals in c.domain(rng):
+            for vals in list(c.domain(rng))[shard::max(1, c.shards)]:
                 if c.requires and not c.requires(vals):
                     continue
                 r = h.run_io(vals)
@@ -291,22 +294,22 @@ def judge(h: IOHarness, c: IOContract, vals: Vals, r: Dict[str, Any]) -> Optiona
 
 # ------------------------------------------------------------------------------------------------ pool runner
 
-_JOBS: List[Tuple[IOContract, int]] = []
+_JOBS: List[Tuple[IOContract, int, int]] = []
 
 
 def _one(idx: int):
-    c, seed = _JOBS[idx]
-    t0 = time.time()
+    c, seed, shard = _JOBS[idx]
+    t0 = time.process_time()
     rep = Report('C09', 'quick', seed, 'exploration', '')
     try:
-        ev, di = check_io_contract(rep, c, seed)
+        ev, di = check_io_contract(rep, c, seed, shard)
     except Exception as e:  # a crash of the harness itself is reported as such, not as a violation of the library
         import traceback
 
         rep.violation(Violation(f'bounded:{c.name}.harness', f'{c.call}: harness error {type(e).__name__}: {e}', dict(call=c.call, trace=traceback.format_exc()[-900:]), False, key=f'{c.name}:harness'))
         ev = di = 0
     if os.environ.get('VERIF_STL_TIMES'):
-        print(f'  {time.time() - t0:6.1f}s {ev:6d} runs  w={c.widths} {c.call[:60]!r}', flush=True)
+        print(f'  {time.process_time() - t0:6.1f}s {ev:6d} runs  w={c.widths} {c.call[:60]!r}', flush=True)
     return idx, ev, di, rep.violations
 
 
@@ -316,7 +319,7 @@ def run_io_contracts(rep: Report, contracts: List[IOContract], seed: int, prop: 
 
     global _JOBS
     order = sorted(range(len(contracts)), key=lambda i: -contracts[i].weight)
-    _JOBS = [(contracts[i], seed) for i in order]
+    _JOBS = [(contracts[i], seed, k) for i in order for k in range(max(1, contracts[i].shards))]
     ctx = mp.get_context('fork')
     with ctx.Pool(max(1, min(procs, len(_JOBS)))) as pool:
         results = list(pool.imap_unordered(_one, range(len(_JOBS)), chunksize=1))
@@ -327,7 +330,7 @@ def run_io_contracts(rep: Report, contracts: List[IOContract], seed: int, prop: 
         g = per.setdefault(c.group, [0, 0, 0])
         g[0] += ev
         g[1] += di
-        g[2] += 1
+        g[2] += 1 if _JOBS[idx][2] == 0 else 0
         for v in viols:
             rep.violation(v)
     for gname, (ev, di, k) in per.items():
